@@ -128,8 +128,11 @@ IsWord(w) == Len(w) = WordLen /\ IsNum(w)
 AcceptBound(md) == Mul(DivMod(WordSpace, md).q, md)           \* (W div m) * m
 AcceptedW(md, w) == Less(w, AcceptBound(md))
 ReduceW(md, w) == DivMod(w, md).r
-\* modulus given as a small integer m >= 1
-AcceptBoundS(m) == MulSmall(DivSmall(WordSpace, m), m)
+\* modulus given as a small integer m >= 1 (stack sizes: tabulated once)
+AcceptBoundS0(m) == MulSmall(DivSmall(WordSpace, m), m)
+TableMax == 520
+AcceptTable == [m \in 1..TableMax |-> AcceptBoundS0(m)]
+AcceptBoundS(m) == IF m <= TableMax THEN AcceptTable[m] ELSE AcceptBoundS0(m)
 AcceptedS(m, w) == Less(w, AcceptBoundS(m))
 ReduceS(m, w) == ModSmall(w, m)
 
@@ -138,10 +141,11 @@ FirstBelow(bound, ws, k) ==           \* index of the first word from position k
   IF k > Len(ws) THEN 0 ELSE IF Less(ws[k], bound) THEN k ELSE FirstBelow(bound, ws, k + 1)
 
 \* one call of the bounded sampler that finds the words ws (in this order) in the coin source
-ModRun(md, ws) ==
-  LET x == FirstBelow(AcceptBound(md), ws, 1)
+ModRunB(md, bound, ws) ==              \* bound = AcceptBound(md), handed in when it is known already
+  LET x == FirstBelow(bound, ws, 1)
   IN IF x = 0 THEN [ok |-> FALSE, used |-> Len(ws), val |-> <<>>]
      ELSE [ok |-> TRUE, used |-> x, val |-> ReduceW(md, ws[x])]
+ModRun(md, ws) == ModRunB(md, AcceptBound(md), ws)
 ModRunS(m, ws) ==
   LET x == FirstBelow(AcceptBoundS(m), ws, 1)
   IN IF x = 0 THEN [ok |-> FALSE, used |-> Len(ws), val |-> 0]
